@@ -1,7 +1,7 @@
 CONSTANTS
-  NK = 8
+  NK = 7
   NV = 1
-  MaxLen = 12
+  MaxLen = 10
   Reads <- ReadsNone
   Lims <- Lims0
   Grow = 0
